@@ -56,4 +56,28 @@ func confineNoReach(c *an.Ctx, cg *an.CG, rule string, roots, sinks []*ssa.Funct
 			}
 		}
 	}
+	if c.Tier == "thorough" {
+		// second opinion on the coarser CHA graph: a sink reachable only there is
+		// reported as information (CHA resolves every interface call to every
+		// implementation; VTA prunes by the types that actually flow)
+		cha := c.P.CHAGraph()
+		n := 0
+		for _, root := range roots {
+			r := cha.Reach([]*ssa.Function{root}, opts)
+			for _, s := range sinks {
+				if r.Has(s) {
+					n++
+					c.Note("cha-only|"+an.FuncName(root)+"|"+an.FuncName(s), "CHA over-approximation (information only)", c.P.Rel(root.Pos()), "reachable in the CHA graph only: "+clipPath(r.Path(s)))
+				}
+			}
+		}
+		c.Count("cha_only_reachable_pairs", n)
+	}
+}
+
+func clipPath(p []string) string {
+	if len(p) > 8 {
+		p = append(append([]string{}, p[:4]...), append([]string{"..."}, p[len(p)-3:]...)...)
+	}
+	return strings.Join(p, " -> ")
 }
